@@ -212,6 +212,17 @@ package machine
 //@   inline
 //@   property C03
 
+// ---- C03 C01: amounts are unbounded integers: a sum or a difference is the mathematical one whatever the size of the
+// operands (no detour through a machine word); a missing operand counts as zero
+//@ func (*machine.MonetaryInt).Add
+//@   ensures ret != nil && val(ret) == ite(a == nil, 0, val(a)) + ite(b == nil, 0, val(b))
+//@   inline
+//@   property C03 C01
+//@ func (*machine.MonetaryInt).Sub
+//@   ensures ret != nil && val(ret) == ite(a == nil, 0, val(a)) - ite(b == nil, 0, val(b))
+//@   inline
+//@   property C03 C01
+
 // ---- C08 C03: the number a literal or a variable denotes is the decimal reading of its text (the grammar's NUMBER is
 // [0-9]+: a leading zero is a zero, not an octal prefix)
 //@ func machine.ParseMonetaryInt
